@@ -440,8 +440,8 @@ fam(Family("far-upvalue", {
     keep_far="far-upvalue", doc="upvalue index above 255"))
 
 
-# ---- keys-odd-args: an odd number of key/value arguments to a &keys / &named function (each program in its
-# own process: the defect reads beyond the arguments on the fiber stack).  Known defect, see NOTES.md.
+# ---- keys-odd-args: an odd number of key/value arguments to a &keys / &named function: the last one is ignored.
+# (Was a defect -- read beyond the arguments on the fiber stack -- fixed in /repo by f286ca6; see NOTES.md.)
 product_family("keys-odd-args", lambda tier: [
     "(do (defn f [&keys p] p) (f 1))",
     "(do (defn f [&keys p] p) (f 1 :j 2))",
@@ -450,7 +450,7 @@ product_family("keys-odd-args", lambda tier: [
     "(do (defn f [p &keys q] (tuple p q)) (f 1 :k))",
     "(do (defn f [&named p] p) (f :p 1 :q))",
     "(do (defn f [&keys p] p) (f a b x))",
-], ctx_quick=CORE_CTX, ctx_thorough=ALL_CTX, keep_far="keys-odd-args")
+], ctx_quick=CORE_CTX, ctx_thorough=ALL_CTX)
 
 # ---- far-error-operand: (error v) in a function with more than 240 live locals.  Known defect, see NOTES.md.
 fam(Family("far-error-operand", {
@@ -465,6 +465,13 @@ fam(Family("far-rest-destructure", {
           "(do (def [p & q] [1]) q)"],
 }, quick=1, thorough=1, ctx_quick=["far", "far-tail", "far-temps", "fn-def"], ctx_thorough=["far", "far-tail", "far-temps", "fn-def"],
     keep_far="far-rest-destructure"))
+
+# ---- iflet-else-position: an error raised by macro-generated code inside the else branch of if-let is attributed
+# to the enclosing form (the branch is pre-expanded with macex, which drops the macro form's position).  See NOTES.md.
+fam(Family("iflet-else-position", {
+    "e": ["(if-let [p nil] 1 (do (each q nil (t q)) x))", "(if-let [p false] 1 (tuple 1 (each q 5 q)))",
+          "(if-let [p nil] 1 (do (var w :k) (++ w)))", "(if-let [p nil] 1 (each q nil q))", "(if-let [p nil] 1 (do (+ 1 :k)))"],
+}, quick=1, thorough=1, ctx_quick=NEAR_CTX, ctx_thorough=NEAR_CTX, keep_far="iflet-else-position"))
 
 # ---- dead-destructure: positional destructuring of a non-indexable value whose bound names are never used:
 # the optimiser deletes the get-index instructions although they raise.  Known defect, see NOTES.md.
